@@ -14,6 +14,7 @@ def run(ctx):
         Part('filter_candset', 'corr_matcher', 'run_candset', [s, 200 if q else 3000]),
         Part('filter_pair', 'corr_filters', 'run_pairs', [s, 300 if q else 6000],
              specs={'fp_overlap_exact_spec'}),
+        Part('filter_pair_code', 'corr_pairgen', 'run', [s, 100 if q else 2000], count_exceptions=False),
         Part('index_code', 'corr_index', 'run', [s, 100 if q else 2000], count_exceptions=False),
         Part('split_grid', 'corr_split', 'run', [s, 100 if q else 1000]),
         Part('overlap_tables', 'corr_filters', 'run_tables', [s, 100 if q else 2000, ['overlap']],
